@@ -3,16 +3,24 @@ package c05
 
 import (
 	"bytes"
+	"context"
 	"encoding/base64"
 	"encoding/hex"
 	"encoding/json"
 	"fmt"
+	"github.com/aws/aws-sdk-go-v2/aws"
+	"github.com/aws/aws-sdk-go-v2/credentials"
+	"github.com/aws/aws-sdk-go-v2/service/s3"
+	"github.com/tailscale/setec/server"
+	"io"
+	"net/http"
 	"os"
 	"path/filepath"
 	"strings"
 	"sync"
 	"sync/atomic"
 	"testing"
+	"time"
 
 	"github.com/tailscale/setec/audit"
 	"github.com/tailscale/setec/client/setec"
@@ -347,6 +355,7 @@ func TestCheck(t *testing.T) {
 	restored(t, rep, base, sc)
 	reopened(t, rep, base)
 	kekDown(t, rep, base)
+	backupWithoutKey(t, rep, base)
 	tamper(t, env, rep, base)
 	if err := rep.Write(env); err != nil {
 		t.Fatal(err)
@@ -696,4 +705,86 @@ func kekDown(t *testing.T, rep *report.Report, base string) {
 	}
 	sec.States, sec.Transitions = sec.Evaluations, sec.Evaluations*int64(len(ops))
 	sec.Samples = append(sec.Samples, fmt.Sprintf("%d runs of %d operations, each with the key service up and down", sec.Evaluations, len(ops)))
+}
+
+// memS3 is an in-memory S3 endpoint behind a genuine *s3.Client.
+type memS3 struct {
+	mu     sync.Mutex
+	bodies [][]byte
+	got    chan struct{}
+}
+
+func (m *memS3) RoundTrip(req *http.Request) (*http.Response, error) {
+	var body []byte
+	if req.Body != nil {
+		body, _ = io.ReadAll(req.Body)
+		req.Body.Close()
+	}
+	m.mu.Lock()
+	m.bodies = append(m.bodies, body)
+	m.mu.Unlock()
+	select {
+	case m.got <- struct{}{}:
+	default:
+	}
+	return &http.Response{StatusCode: 200, Status: "200 OK", Header: http.Header{"Etag": {`"abc"`}}, Body: io.NopCloser(strings.NewReader("")), Request: req}, nil
+}
+
+// backupWithoutKey: "a running server does not depend on the key service" includes its background
+// backup task: with the key service unreachable from the moment Open returned, the task (run through
+// the verif hook, free-running) must still upload the database file, and the key is never asked.
+func backupWithoutKey(t *testing.T, rep *report.Report, base string) {
+	sec := rep.Add(&report.Section{Name: "backup-task-with-the-key-service-down", Engine: "enum", Exhaustive: true, Extra: map[string]int64{},
+		Rule: "databases {empty, two secrets}: opened with a key service that becomes unreachable when Open returns; the periodic backup task (verif hook, in-memory S3, real time) must deliver its start-up upload, byte-identical to the file, and the key must never be asked; the only time bound (90 s for a step of milliseconds) is reached only if no upload comes; non-trivial = all"})
+	for _, withSecrets := range []bool{false, true} {
+		sec.Evaluations++
+		sec.Nontrivial++
+		desc := fmt.Sprintf("database with secrets=%v", withSecrets)
+		dir := filepath.Join(base, fmt.Sprintf("backup%v", withSecrets))
+		os.MkdirAll(dir, 0o700)
+		p := filepath.Join(dir, "db")
+		kek := &downAEAD{inner: hx.NewKEK()}
+		d, err := db.Open(p, kek, hx.Discard())
+		if err != nil {
+			t.Fatal(err)
+		}
+		if withSecrets {
+			apply(d, Op{Kind: "put", Name: 0, Val: 0})
+			apply(d, Op{Kind: "put", Name: 1, Val: 1})
+		}
+		kek.down.Store(true)
+		want, _ := os.ReadFile(p)
+		m := &memS3{got: make(chan struct{}, 4)}
+		client := s3.New(s3.Options{Region: "us-east-1", Credentials: credentials.NewStaticCredentialsProvider("AKIDEXAMPLE", "secret", ""), HTTPClient: &http.Client{Transport: m}, Retryer: aws.NopRetryer{}, UsePathStyle: true, BaseEndpoint: aws.String("http://s3.test")})
+		ctx, cancel := context.WithCancel(context.Background())
+		done := make(chan struct{})
+		go func() {
+			defer close(done)
+			server.VerifPeriodicBackup(ctx, d, client, "bucket")
+		}()
+		select {
+		case <-m.got:
+			m.mu.Lock()
+			b := m.bodies[0]
+			m.mu.Unlock()
+			if !bytes.Equal(b, want) {
+				rep.Violate(sec.Name, "backup-without-key/upload-differs: "+desc, desc+": the upload is not the database file", nil)
+			}
+		case <-time.After(90 * time.Second):
+			rep.Violate(sec.Name, "backup-without-key/no-upload: "+desc, fmt.Sprintf("%s: with the key service unreachable since Open returned, no backup reached the bucket within 90 s (the key was asked %d times)", desc, kek.n.Load()), nil)
+			cancel()
+			sec.Exhaustive = false
+			sec.States, sec.Transitions = sec.Evaluations, sec.Evaluations
+			return
+		}
+		cancel()
+		select {
+		case <-done:
+		case <-time.After(30 * time.Second):
+		}
+		if n := kek.n.Load(); n != 0 {
+			rep.Violate(sec.Name, "backup-without-key/key-asked: "+desc, fmt.Sprintf("%s: the backup task asked the key-encryption key %d time(s) after Open had returned", desc, n), nil)
+		}
+	}
+	sec.States, sec.Transitions = sec.Evaluations, sec.Evaluations
 }
